@@ -2,8 +2,8 @@
    no prefix; structs are defined under id.renamed, enums, aliases and ...Inner helper structs under
    id.original (the table of Spec/C09Spec.v); every mentioned id is spelled verbatim.
    With a non-empty acronym list the conversion rewrites definition names and member / payload types
-   (on the printed text) but not alias targets and const types: that configuration is covered by the
-   correspondence check only. *)
+   (on the printed text) but not alias targets and const types: that configuration is Proofs/C09_GoAcr.v
+   (every alphanumeric acronym list, ASCII programs), which reuses go_texp_names and go_names_strip. *)
 From Coq Require Import List Bool String Permutation.
 From TS Require Import Model.Str Model.Outcome Model.Unicode Model.Types Model.Parse Model.Reconcile Model.TopsortAlgo Model.Topsort
                        Model.Lang.Common Model.Lang.Decl Model.Lang.Go Spec.C09Spec.
